@@ -9,12 +9,15 @@ after every operation the real answer of ``get_package_conf_or_none`` for a
 probe set of module names, the exception outcome and the presence of the path
 hook must equal the model's.
 """
+import importlib
+import os
 import sys
 
 from sim import kernel, ops
 
 ID = 'C06'
 BATCH = True
+NEEDS_SCRATCH = True
 RULE = ('seeded histories of 2-12 operations over beartype_all / beartype_package / beartype_packages / '
         'beartype_this_package / beartyping enter+exit (nested <= 3, bodies that raise), dotted names over a 3-letter '
         'alphabet (prefixes of one another, excluded packages, invalid names), 5 configurations with and without skip '
@@ -31,7 +34,8 @@ ASSUMPTIONS = [
     'calls inside the body persist',
     'a failed registration leaves the model unchanged (as the property states), including skip-list entries',
 ]
-PROBES = ['conflict_faults', 'body_raise', 'nested_blocks', 'skip_lists', 'this_package', 'invalid_names', 'queries']
+PROBES = ['conflict_faults', 'body_raise', 'nested_blocks', 'skip_lists', 'this_package', 'invalid_names', 'queries',
+          'real_imports', 'real_imports_checked', 'imports_before_first_registration']
 
 NAMES = ['aa', 'bb', 'cc', 'aa.bb', 'aa.cc', 'bb.aa', 'aa.bb.cc', 'aa.bb.aa', 'bb.cc.aa', 'cc.cc', 'aa.bb.cc.aa']
 EXCLUDED = ['beartype', 'pydantic', 'urllib3']
@@ -61,6 +65,61 @@ def probe_names():
 
 
 PROBE_NAMES = probe_names()
+# modules that exist on disk for the end-to-end imports: every package of NAMES (its __init__) and a leaf zz in each
+IMPORTABLE = sorted(set(NAMES) | {n + '.zz' for n in NAMES} | {n.split('.')[0] for n in NAMES}
+                    | {'.'.join(n.split('.')[:i]) for n in NAMES for i in range(1, len(n.split('.')) + 1)})
+TOPS = sorted({n.split('.')[0] for n in NAMES})
+MODULE_SOURCE = 'def f(a: float) -> float:\n    return a\n'
+
+
+def _tree(case):
+    """The on-disk package tree (one per worker process, never modified; no bytecode is written for it)."""
+    root = os.path.join(os.path.dirname(case['scratch']), 'c06tree-%d' % os.getpid())
+    if not os.path.isdir(root):
+        tmp = root + '.tmp'
+        for n in IMPORTABLE:
+            if n.endswith('.zz'):
+                continue
+            d = os.path.join(tmp, *n.split('.'))
+            os.makedirs(d, exist_ok=True)
+            for fn in ('__init__.py', 'zz.py'):
+                with open(os.path.join(d, fn), 'w') as f:
+                    f.write(MODULE_SOURCE)
+        os.rename(tmp, root)
+    return root
+
+
+def _evict_tree_modules():
+    for name in list(sys.modules):
+        if name.split('.')[0] in TOPS:
+            del sys.modules[name]
+
+
+def _import_probe(name):
+    """Import the module afresh (its already imported parents stay) -> ('unchecked',) | ('checked', tower?, violation type)."""
+    sys.modules.pop(name, None)
+    try:
+        mod = importlib.import_module(name)
+    except Exception as e:      # noqa
+        return ('import_error', type(e).__name__, str(e)[:200])
+    try:
+        mod.f('x')
+        return ('unchecked',)
+    except Exception as e:      # noqa
+        vt = 'ValueError' if type(e) is ValueError else ('beartype' if type(e).__module__.startswith('beartype.roar') else type(e).__name__)
+    try:
+        mod.f(1)
+        tower = True
+    except Exception:      # noqa
+        tower = False
+    return ('checked', tower, vt)
+
+
+def _expected_probe(ci):
+    if ci is None:
+        return ('unchecked',)
+    c = CONFS[ci] or {}
+    return ('checked', bool(c.get('tower')), 'ValueError' if c.get('vt') == 'valueerror' else 'beartype')
 
 
 # ------------------------------------------------------------------ generation
@@ -108,6 +167,12 @@ def generate(rng, run, tier):
     while depth > 0 and rng.random() < 0.8:
         hist.append({'op': 'exit', 'raise': rng.random() < 0.25})
         depth -= 1
+    if rng.random() < 0.3:
+        # end to end: real imports of on-disk modules of those names, placed anywhere in the history - before the first
+        # registration too, so that the import system has already cached finders for some package directories when the
+        # path hook arrives (drawn last: the registration history is what it would be without them)
+        for _ in range(rng.randint(1, 5)):
+            hist.insert(rng.randint(0, len(hist)), {'op': 'import', 'name': rng.choice(IMPORTABLE)})
     return {'hist': hist}
 
 
@@ -229,10 +294,38 @@ def execute(case):
         except Exception as e:      # noqa
             return 'other:' + type(e).__name__, e
 
-    with warnings.catch_warnings():
+    has_imports = any(op['op'] == 'import' for op in case['hist'])
+    if has_imports:
+        root = _tree(case)
+        _evict_tree_modules()
+        sys.path_importer_cache.clear()
+        importlib.invalidate_caches()
+        old_path, old_dwb = list(sys.path), sys.dont_write_bytecode
+        sys.path.insert(0, root)
+        sys.dont_write_bytecode = True
+    try:
+      with warnings.catch_warnings():
         warnings.simplefilter('ignore')
         for i, op in enumerate(case['hist']):
             k = op['op']
+            if k == 'import':
+                exp = 'ok'
+                got = _import_probe(op['name'])
+                want = _expected_probe(model.query(op['name']))
+                probes['real_imports'] += 1
+                probes['real_imports_checked'] += got[0] == 'checked'
+                if not model.hooked() and not any(o['op'] != 'import' for o in case['hist'][:i]):
+                    probes['imports_before_first_registration'] += 1
+                if got != want:
+                    if got == ('unchecked',) and any(op['name'] == g or op['name'].startswith(g + '.') for g in model.ghosts):
+                        viol = ('scoping_mismatch', 'op %d: importing %r gives an unchecked module because skip-list entry of an '
+                                'already left beartyping() block is still in force (history %r)' % (i, op['name'], case['hist'][:i + 1]), 'ghost_skip')
+                    else:
+                        viol = ('import_mismatch', 'op %d: importing the on-disk module %r gives %r, the registrations so far '
+                                'require %r (history %r)' % (i, op['name'], got, want, case['hist'][:i + 1]),
+                                'import_mismatch:' + got[0] + ':' + want[0])
+                    break
+                continue
             if k == 'all':
                 exp = model.op_all(op['conf'])
                 st, e = real(lambda: claw.beartype_all(conf=confs[op['conf']]))
@@ -319,6 +412,13 @@ def execute(case):
                     i, op, hc, 'non-empty' if model.hooked() else 'empty', case['hist'][:i + 1]),
                     'path_hook_mismatch:' + _why(case['hist'][:i + 1], exp))
                 break
+    finally:
+        if has_imports:
+            sys.path[:] = old_path
+            sys.dont_write_bytecode = old_dwb
+            _evict_tree_modules()
+            sys.path_importer_cache.clear()
+            importlib.invalidate_caches()
     probes['nested_blocks'] = 1 if max_depth > 1 else 0
     out = {'digest': kernel.stable_hash(case['hist']), 'nontrivial': faults > 0 or max_depth > 1, 'probes': probes,
            'stats': {'conflict': probes['conflict_faults'], 'body_raise': probes['body_raise'],
